@@ -127,20 +127,18 @@ def run(E: Engine, rep: Report, tier: str) -> dict:
                 return True
         return False
 
-    # the guard inside _validate_channel must itself reject when in EOM mode
-    flv = E.flow(vc)
+    # the guard inside _validate_channel must itself reject when in EOM mode: a raise whose path condition is
+    # exactly `block_eom_mode and self.is_in_eom_mode(channel)` (plus the negations of the earlier rejections)
+    from .. import sym as _sym
+    from .symutil import S as _S, is_ as _is
+
     ok_inner = False
-    for node in flv.nodes:
-        st = node.stmt
-        if node.kind == "test" and isinstance(st, ast.If) and always_raises(st.body):
-            t = st.test
-            if isinstance(t, ast.BoolOp) and isinstance(t.op, ast.And) and len(t.values) == 2:
-                a, b = t.values
-                if isinstance(a, ast.Name) and a.id == "block_eom_mode":
-                    for pol, call in cond_calls(b):
-                        cs, _ = E.R.callees(call, flv.ctx)
-                        if pol and {c.innermost().qualname for c, _m in cs} <= q_in_eom and cs:
-                            ok_inner = True
+    for l in _S(E, vc, inline=False).logged("raise"):
+        pos = [x for x in _sym.conj_of(l.cond) if x[0] != "not" and not (x[0] == "cmp" and x[1] in ("NotIn", "NotEq", "IsNot"))]
+        lits = _sym.conj_of(l.cond)
+        if ("name", "block_eom_mode") in lits and any(_is(x, "self.is_in_eom_mode(channel)") is not None for x in lits) and not any(_is(x, "not self.is_in_eom_mode(channel)") is not None for x in lits):
+            extra = [x for x in pos if x != ("name", "block_eom_mode") and _is(x, "self.is_in_eom_mode(channel)") is None and x[0] != "or"]
+            ok_inner = ok_inner or not [x for x in extra if not (x[0] == "cmp" and x[1] in ("In", "Eq", "Is"))]
     rep.check(ok_inner, "DOM-GUARD", "Sequence._validate_channel|block_eom_mode-rejects-in-eom", "`if block_eom_mode and self.is_in_eom_mode(channel): raise` present", "_validate_channel no longer rejects a channel in EOM mode when block_eom_mode is set", E.where(vc))
 
     spec_noeom = GuardSpec("not-in-eom", _never, ev_block_eom)
